@@ -129,7 +129,7 @@ def run(R, tier):
     R.check(not extra and writers, "R04.7", "flag-writers", "lexer flags are written only by Tokenizer::next and the constructors (readers leave them alone)", "lexer flags written elsewhere: %s" % extra)
 
     # ---- R04.8 whole-element tables (sa/rules/lexer.py: element_table) -----------------------------------------------------
-    LX.check_elements(R, "R04.8", ("mnemonic", "chardata", "decimal", "string", "expression", "block", "non-decimal", "separator"))
+    LX.check_elements(R, "R04.8", ("mnemonic", "chardata", "decimal", "string", "expression", "block", "non-decimal", "separator"), tier == "thorough")
 
     # ---- R04.1 length limits ----------------------------------------------------------------------------------
     for reader, err in (("read_mnemonic", "ProgramMnemonicTooLong"), ("read_character_data", "CharacterDataTooLong"), ("read_suffix_data", "SuffixTooLong")):
